@@ -192,7 +192,8 @@ def main(argv):
         checker_errors.append('zero proof obligations generated')
 
     # ---------------------------------------------------------------- bounded / exhaustive stage
-    bounded = run_bounded(prop, tier, seed)
+    # PYVC_SKIP_BOUNDED=1 is for the self-tests only (shows what the deductive stage alone decides); registered commands never set it
+    bounded = None if os.environ.get('PYVC_SKIP_BOUNDED') else run_bounded(prop, tier, seed)
     if bounded is not None:
         if bounded.get('error'):
             checker_errors.append('bounded stage: ' + bounded['error'])
